@@ -47,6 +47,7 @@ struct Sim {
     int max_new_blocks{6};
     bool cursor_check{true};
     std::string pid;                          // property id for messages
+    std::function<void(const std::string&)> extra_check{};  // additional per-state monitor (after each event)
 
     explicit Sim(Node& node) : n(node) {}
 
@@ -414,6 +415,7 @@ struct Sim {
             if (total > cap) fs.report(pid + "-supply-exceeds-schedule", "sum of UTXO values exceeds the subsidy schedule");
         }
         (void)tip_before;
+        if (extra_check) extra_check(e);
     }
 
     // DB-level check: flush, then walk the coins DB with a cursor. Runs in the holder of a state after its
